@@ -293,12 +293,24 @@ def check_mutant(args):
         env = dict(os.environ, VERIF_REPO=wt, VERIF_NO_EVIDENCE="1", PYTHONDONTWRITEBYTECODE="1")
         ran = []
         for cid in CHECKS[m["file"]]:
+            import signal
+            proc = subprocess.Popen([os.path.join(HERE, "check"), cid, "quick"], cwd=HERE, env=env, stdout=subprocess.PIPE,
+                                    stderr=subprocess.STDOUT, text=True, errors="replace", start_new_session=True)
             try:
-                p = subprocess.run([os.path.join(HERE, "check"), cid, "quick"], cwd=HERE, env=env, stdout=subprocess.PIPE,
-                                   stderr=subprocess.STDOUT, timeout=1800, text=True, errors="replace")
+                out_, _ = proc.communicate(timeout=int(os.environ.get("AUTOMUT_CHECK_TIMEOUT", "300")))
             except subprocess.TimeoutExpired:
-                ran.append((cid, "timeout", ""))
-                continue
+                # the workload hangs on this mutant (the registered check would end INCONCLUSIVE by its watchdog): noticed
+                try:
+                    os.killpg(proc.pid, signal.SIGKILL)
+                except OSError:
+                    pass
+                proc.communicate()
+                ran.append((cid, "hang", "check did not finish within the mutation-run budget"))
+                break
+
+            class p:
+                returncode = proc.returncode
+                stdout = out_
             first = ""
             lines = p.stdout.splitlines()
             for i, l in enumerate(lines):
@@ -309,7 +321,7 @@ def check_mutant(args):
             if p.returncode == 1:
                 break
         m["checks"] = ran
-        m["caught_by"] = ran[-1][0] if ran and ran[-1][1] == 1 else None
+        m["caught_by"] = ran[-1][0] if ran and ran[-1][1] == 1 else ("hang:" + ran[-1][0] if ran and ran[-1][1] == "hang" else None)
         return m
     finally:
         subprocess.run(["git", "-C", wt, "checkout", "--", "."], stdout=subprocess.DEVNULL, stderr=subprocess.DEVNULL)
